@@ -267,8 +267,11 @@ def random_case(draw, _depth=0):
 # ---------------------------------------------------------------------------------------------------------------------
 # several links on one dongle (a swarm on one Crazyradio): links are opened and closed while others keep running
 
+_SHARED_CHANNELS = [0, 11, 125, 80]      # link i uses channel _SHARED_CHANNELS[i]: both ends of the channel range are in use
+
+
 def run_shared(case):
-    """ops: ('open', i) / ('close', i) / ('traffic', i, n_up, n_down); link i uses channel 10+i; free-running fake dongle that routes
+    """ops: ('open', i) / ('close', i) / ('traffic', i, n_up, n_down); link i uses channel _SHARED_CHANNELS[i]; free-running fake dongle that routes
     every frame to the peer of the (channel, address) it was sent on and loses transmissions after a per-link cyclic pattern"""
     import cflib.crtp.radiodriver as rd
     from cflib.crtp.crtpstack import CRTPPacket
@@ -279,7 +282,7 @@ def run_shared(case):
     txn = {}
 
     def answer(d, frame):
-        i = (d.channel or 0) - 10
+        i = _SHARED_CHANNELS.index(d.channel) if d.channel in _SHARED_CHANNELS else None
         peer = peers.get(i)
         if peer is None:
             return b'\x00'
@@ -314,7 +317,7 @@ def run_shared(case):
                     txn[i] = 0
                     submitted[i], queued[i], received[i] = [], [], []
                     drv = rd.RadioDriver()
-                    drv.connect('radio://0/%d/2M/E7E7E7E70%d' % (10 + i, i), None, lambda m, i=i: errors.append((i, m)))
+                    drv.connect('radio://0/%d/2M/E7E7E7E70%d' % (_SHARED_CHANNELS[i], i), None, lambda m, i=i: errors.append((i, m)))
                     drivers[i] = drv
                 elif op[0] == 'close' and i in drivers:
                     shared = rd.RadioManager._radios[0]
